@@ -67,3 +67,7 @@ def run(ctx):
       own = [fmt_desc(g.atom) for g in expand(b, all_guards(b, c.bb)) if flag in fmt_desc(g.atom)]
       ctx.ob('R15.2', b.n, f'{callee.split("::")[-1]} is called independently of the optional index flags', not fg, f'{fg}', where(b, c.line))
       ctx.ob('R15.2', b.n, f'{callee.split("::")[-1]} is gated by {flag}', bool(own), '', where(b, c.line), nontrivial=False)
+
+
+# sensitivity pack (thorough tier): each seeded edit must be reported by the named rule instance
+MUTANTS = [{'name': 'number-table-gated-on-sat-index', 'file': 'src/index/updater/inscription_updater.rs', 'old': '        self\n          .inscription_number_to_sequence_number\n          .insert(inscription_number, sequence_number)?;', 'new': '        if index.index_sats {\n          self\n            .inscription_number_to_sequence_number\n            .insert(inscription_number, sequence_number)?;\n        }', 'expect': ('R15.1', 'update_inscription_location', 'INSCRIPTION_NUMBER_TO_SEQUENCE_NUMBER')}]
